@@ -6,8 +6,11 @@ import (
 	"fmt"
 	"go/ast"
 	"go/token"
+	"go/types"
 	"sort"
 	"strings"
+
+	"golang.org/x/tools/go/packages"
 )
 
 type cliSpec struct {
@@ -34,8 +37,22 @@ func checkC18(c *Ctx, r *Report) {
 		return
 	}
 	find := func(name string) *ast.FuncDecl {
-		_, fd := c.findIn(c.Cmd, name)
-		return fd
+		if _, fd := c.findIn(c.Cmd, name); fd != nil {
+			return fd
+		}
+		// the same function turned into a method (or back): unique by simple name in the command's package
+		var hit *ast.FuncDecl
+		n := 0
+		for obj, fd := range c.funcDecls {
+			if obj.Pkg() == c.Cmd.Types && fd.Name.Name == name {
+				hit = fd
+				n++
+			}
+		}
+		if n == 1 {
+			return hit
+		}
+		return nil
 	}
 	pa := find("parseArgs")
 	run := find("run")
@@ -95,6 +112,50 @@ func checkC18(c *Ctx, r *Report) {
 		for _, e := range a.Exprs {
 			switch x := stripParens(e).(type) {
 			case *ast.BinaryExpr:
+				// table form: `case flags[arg] != nil: *flags[arg] = true` with flags := map[string]*bool{"-d": &a.disasm, ...}
+				if x.Op == token.NEQ && isNilIdent(x.Y) {
+					if ix, ok := stripParens(x.X).(*ast.IndexExpr); ok {
+						if id, ok := stripParens(ix.X).(*ast.Ident); ok {
+							if def, n := c.singleDef(pa.Body, c.objOf(id)); n == 1 {
+								if cl, ok := def.(*ast.CompositeLit); ok {
+									setsTrue := false
+									for _, st := range a.Body {
+										if as, ok := st.(*ast.AssignStmt); ok && len(as.Lhs) == 1 && len(as.Rhs) == 1 {
+											if star, ok := as.Lhs[0].(*ast.StarExpr); ok {
+												if ix2, ok := stripParens(star.X).(*ast.IndexExpr); ok && c.sameExpr(ix2, ix) {
+													if rid, ok := as.Rhs[0].(*ast.Ident); ok && rid.Name == "true" {
+														setsTrue = true
+													}
+												}
+											}
+										}
+									}
+									okTable := setsTrue
+									for _, el := range cl.Elts {
+										kv, ok := el.(*ast.KeyValueExpr)
+										if !ok {
+											okTable = false
+											continue
+										}
+										k, ok1 := c.strConst(kv.Key)
+										ue, ok2 := kv.Value.(*ast.UnaryExpr)
+										if !ok1 || !ok2 || ue.Op != token.AND {
+											okTable = false
+											continue
+										}
+										fp := c.fieldPath(ue.X)
+										if setsTrue {
+											gotBool[k] = fp[strings.Index(fp, ".")+1:]
+										}
+									}
+									if okTable {
+										continue
+									}
+								}
+							}
+						}
+					}
+				}
 				if x.Op == token.EQL {
 					if s, ok := c.strConst(x.Y); ok {
 						switch {
@@ -260,11 +321,11 @@ func checkC18(c *Ctx, r *Report) {
 	seenCalls := map[string]int{}
 	pos := map[string]int{}
 	idx := 0
-	walkCalls(run.Body, false, func(call *ast.CallExpr) {
+	c.walkCallsDeep(c.Cmd, run.Body, func(call *ast.CallExpr) {
 		idx++
 		name := c.calleeName(call)
 		want, tracked := spec.Wiring[name]
-		if name == "Prog.Dump" || c.cmdCallReaches(call, "Prog.Dump") {
+		if name == "Prog.Dump" {
 			if _, seen := pos["Dump"]; !seen {
 				pos["Dump"] = idx
 			}
@@ -353,8 +414,8 @@ func checkC18(c *Ctx, r *Report) {
 		}
 		return true
 	})
-	r.check(dieArgs["cmd.parseArgs"] == spec.ExitUsage, "exit-codes", "usage", "die(2, err) after parseArgs", fmt.Sprintf("a usage error exits with %d, documented %d", dieArgs["cmd.parseArgs"], spec.ExitUsage), c.pos(mainFn.Pos()))
-	r.check(dieArgs["cmd.run"] == spec.ExitRun, "exit-codes", "run", "die(1, err) after run", fmt.Sprintf("a run error exits with %d, documented %d", dieArgs["cmd.run"], spec.ExitRun), c.pos(mainFn.Pos()))
+	r.check(dieArgs[funcNameOfDecl(c, pa)] == spec.ExitUsage, "exit-codes", "usage", "die(2, err) after parseArgs", fmt.Sprintf("a usage error exits with %d, documented %d", dieArgs[funcNameOfDecl(c, pa)], spec.ExitUsage), c.pos(mainFn.Pos()))
+	r.check(dieArgs[funcNameOfDecl(c, run)] == spec.ExitRun, "exit-codes", "run", "die(1, err) after run", fmt.Sprintf("a run error exits with %d, documented %d", dieArgs[funcNameOfDecl(c, run)], spec.ExitRun), c.pos(mainFn.Pos()))
 	r.check(helpExit == spec.ExitHelp, "exit-codes", "help", "os.Exit(0) after help", fmt.Sprintf("help exits with %d, documented %d", helpExit, spec.ExitHelp), c.pos(mainFn.Pos()))
 	okDie := len(die.Body.List) == 2
 	if okDie {
@@ -486,4 +547,32 @@ func (c *Ctx) cmdCallReaches(call *ast.CallExpr, target string) bool {
 		return false
 	}
 	return visit(c.calleeName(call), 0)
+}
+
+// walkCallsDeep visits the calls under body in source order; a call of a
+// function of package pkg (with a body) is followed at that point, so that
+// helpers the command was split into are seen in the order they run.
+func (c *Ctx) walkCallsDeep(pkg *packages.Package, body ast.Node, f func(*ast.CallExpr)) {
+	onStack := map[*ast.FuncDecl]bool{}
+	var walk func(n ast.Node, depth int)
+	walk = func(n ast.Node, depth int) {
+		walkCalls(n, false, func(call *ast.CallExpr) {
+			f(call)
+			if depth > 5 {
+				return
+			}
+			fn, ok := c.callee(call).(*types.Func)
+			if !ok || fn.Pkg() == nil || fn.Pkg() != pkg.Types {
+				return
+			}
+			fd := c.funcDecls[fn]
+			if fd == nil || fd.Body == nil || onStack[fd] {
+				return
+			}
+			onStack[fd] = true
+			walk(fd.Body, depth+1)
+			onStack[fd] = false
+		})
+	}
+	walk(body, 0)
 }
